@@ -33,7 +33,13 @@ def solve(A, b, Delta):
     minSig = sig[0]
 
     # consider bounding the initial guess, see More' Sorenson paper
-    lam = -minSig + eps if minSig < eps else 0.0
+    # Work with the shifted spectrum sig - minSig and the shifted multiplier,
+    # so that sig + lam is never formed by cancellation next to the pole.
+    if minSig < eps:
+        sig = sig - minSig
+        lam = eps
+    else:
+        lam = 0.0
 
     #try to solve this for lam:
     #(A + lam I)p = -b, such that norm(p) = Delta
